@@ -218,7 +218,10 @@ class SymmetryTranslator:
                     for pred in potential_equalities[index]:
                         used_variables.update(collect_ast(pred.atom.symbol.arguments[pos], "Variable"))
                         used_uneq_variables[index].update(collect_ast(pred.atom.symbol.arguments[pos], "Variable"))
-            if len((global_vars_inside_body(lits) | global_vars | kept_variables) & used_variables) == 0:
+            rest_variables: set[AST] = set()  # also the variables inside the aggregates of the remaining literals
+            for lit in lits:
+                rest_variables.update(collect_ast(lit, "Variable"))
+            if len((rest_variables | global_vars | kept_variables) & used_variables) == 0:
                 # built ccs, in a cc, only one comparison can be improved
                 g = nx.Graph()
                 for index1 in index_subset:
@@ -381,7 +384,9 @@ class SymmetryTranslator:
                 for term in elem.terms:  # the tuple of the element is visible outside of its condition
                     global_vars.update(collect_ast(term, "Variable"))
                 for symmetry_bundle in list(
-                    self.largest_symmetric_group(condition, global_vars, list(elem.terms) + list(stm.body), True)
+                    self.largest_symmetric_group(
+                        condition, global_vars, list(elem.terms) + [b for b in stm.body if b != blit], True
+                    )
                 ):
                     log.info(f"Replace atleast2 in aggregate {str(blit)}.")
                     for lit in symmetry_bundle.remove_lits():
